@@ -487,6 +487,81 @@ func (g *gen) coll(o P, depth int) *lib.Node {
 	return n
 }
 
+// emptyNest builds collections in which an ALL-EMPTY sub-collection (nested 1..3 deep) holds typed
+// empties of every dimension (mixed coordinate types), next to non-empty siblings of a lower
+// dimension, typed empties as direct children, or nothing else (the whole collection empty):
+// Dimension counts typed empties wherever they sit, IsEmpty / Boundary / PointOnSurface ignore them.
+func (g *gen) emptyNest(o P) (*lib.Node, string) {
+	r := g.r
+	ct := func() geom.CoordinatesType {
+		if r.Chance(1, 2) {
+			return g.ct
+		}
+		return geom.CoordinatesType(r.Intn(4))
+	}
+	kinds := []lib.Kind{lib.KPoint, lib.KLine, lib.KPoly, lib.KMPoint, lib.KMLine, lib.KMPoly}
+	dimOf := map[lib.Kind]int{lib.KPoint: 0, lib.KMPoint: 0, lib.KLine: 1, lib.KMLine: 1, lib.KPoly: 2, lib.KMPoly: 2}
+	typedEmpty := func(k lib.Kind) *lib.Node {
+		n := &lib.Node{Kind: k, CT: ct()}
+		if k >= lib.KMPoint && r.Chance(1, 2) { // a Multi* whose members are all empty
+			m := map[lib.Kind]lib.Kind{lib.KMPoint: lib.KPoint, lib.KMLine: lib.KLine, lib.KMPoly: lib.KPoly}[k]
+			for j := r.Range(1, 2); j > 0; j-- {
+				n.Kids = append(n.Kids, &lib.Node{Kind: m, CT: n.CT})
+			}
+		}
+		return n
+	}
+	// the all-empty sub-collection: typed empties up to dimension top, wrapped 0..2 more times
+	top := r.Range(1, 2)
+	inner := &lib.Node{Kind: lib.KColl, CT: ct()}
+	have := false
+	for j := r.Range(1, 3); j > 0; j-- {
+		k := kinds[r.Intn(len(kinds))]
+		if dimOf[k] > top {
+			continue
+		}
+		if dimOf[k] == top {
+			have = true
+		}
+		inner.Kids = append(inner.Kids, typedEmpty(k))
+	}
+	if !have {
+		inner.Kids = append(inner.Kids, typedEmpty([]lib.Kind{lib.KLine, lib.KPoly}[top-1]))
+	}
+	depth := r.Range(1, 3)
+	for d := 1; d < depth; d++ {
+		w := &lib.Node{Kind: lib.KColl, CT: ct(), Kids: []*lib.Node{inner}}
+		if r.Chance(1, 3) {
+			w.Kids = append(w.Kids, &lib.Node{Kind: lib.KColl, CT: ct()})
+		}
+		inner = w
+	}
+	n := &lib.Node{Kind: lib.KColl, CT: ct()}
+	shape := ""
+	switch r.Intn(4) {
+	case 0: // the whole collection is empty
+		n.Kids = []*lib.Node{inner}
+		if r.Bool() {
+			n.Kids = append(n.Kids, typedEmpty(kinds[r.Intn(len(kinds))]))
+		}
+		shape = "all_empty"
+	default: // non-empty siblings of a lower dimension than the typed empties inside
+		sib := g.leaf([]int{0, 3}[r.Intn(2)], o)
+		if top == 2 && r.Bool() {
+			sib = g.leaf([]int{1, 4}[r.Intn(2)], o)
+		}
+		n.Kids = []*lib.Node{inner, sib}
+		if r.Bool() {
+			n.Kids[0], n.Kids[1] = n.Kids[1], n.Kids[0]
+		}
+		if r.Chance(1, 3) {
+			n.Kids = append(n.Kids, g.leaf(0, P{o[0] + 3, o[1] - 2}))
+		}
+		shape = fmt.Sprintf("lower_siblings_top%d", top)
+	}
+	return n, fmt.Sprintf("%s_depth%d", shape, depth)
+}
+
 // ---------------------------------------------------------------- invalid inputs (model only)
 
 func (g *gen) invalidPoly(o P) *lib.Node {
@@ -733,8 +808,15 @@ func main() {
 			}
 			class = "puntal"
 		case 8, 9:
-			n = g.coll(o, 0)
-			class = "collection"
+			if r.Chance(1, 3) {
+				var s string
+				n, s = g.emptyNest(o)
+				class = "collection_empty_nest"
+				sub["empty_nest_"+s]++
+			} else {
+				n = g.coll(o, 0)
+				class = "collection"
+			}
 		case 10:
 			if r.Chance(1, 3) {
 				n = g.invalidPoly(o)
